@@ -225,7 +225,7 @@ LAYER2 = {
     "C15": ["AddMul_small"],
     "C16": ["MC_Codecs_small"],
     "C17": ["MC_Codecs_small"],
-    "C18": ["Float_to_small", "Float_from_small"],
+    "C18": ["Float_to_small", "Float_from_small", "MC_Float_small"],
 }
 
 
@@ -238,8 +238,8 @@ def layer2_for(prop):
             last = json.load(fh)
     except (OSError, ValueError):
         last = {}
-    return {"note": "design-level models (algorithms with the limb width as a constant; for C09 / C16 / C17 also the self-consistency of the "
-                    "text and codec oracles, spec/MC_Text.tla and spec/MC_Codecs.tla), model-checked exhaustively by ./check --setup; "
+    return {"note": "design-level models (algorithms with the limb width as a constant; for C09 / C16 / C17 / C18 also the self-consistency "
+                    "of the text, codec and float oracles, spec/MC_Text.tla, MC_Codecs.tla, MC_Float.tla), model-checked exhaustively by ./check --setup; "
                     "they never change this check's exit code (DESIGN.md 8, algo/README.md)",
             "instances": {n: last.get(n, "not run since the last setup") for n in names}}
 
